@@ -118,17 +118,7 @@ def run(args):
         traces.append(rr["trace"])
         owners.append((src, procs, jit))
     # trace validation in batches (a rejected trace stops its batch; the rest is re-validated without it)
-    todo = list(range(len(traces)))
-    while todo:
-        ok, idx, detail = K.validate([traces[i] for i in todo], rep)
-        if ok:
-            break
-        bad = todo[idx]
-        src, procs, jit = owners[bad]
-        rep.fail({"family": "spawn", "kind": "trace-rejected", "invariant": detail["invariant"],
-                  "next_event": (detail["next_line"] or {}).get("e")},
-                 {"program": src, "procs": procs, "jitter": jit, "detail": detail})
-        todo = todo[idx + 1:]
+    K.validate_all(traces, owners, rep, {"family": "spawn"})
     if traces:
         t = traces[0]
         rep.sample({"program": owners[0][0], "procs": owners[0][1],
@@ -177,16 +167,7 @@ def run(args):
     rep.notes["schedules_followed_to_the_end"] = followed
     if scheds and followed < len(scheds) // 2:
         raise C.Machinery("schedule replay follows only %d of %d schedules" % (followed, len(scheds)))
-    todo = list(range(len(rtraces)))
-    while todo:
-        ok, idx, detail = K.validate([rtraces[i] for i in todo], rep)
-        if ok:
-            break
-        bad = todo[idx]
-        rep.fail({"family": "schedule-replay", "kind": "trace-rejected", "invariant": detail["invariant"],
-                  "next_event": (detail["next_line"] or {}).get("e")},
-                 {"program": rowners[bad][0], "schedule": rowners[bad][1], "detail": detail})
-        todo = todo[idx + 1:]
+    K.validate_all(rtraces, rowners, rep, {"family": "schedule-replay"})
     if scheds:
         rep.sample({"schedule": scheds[0]["hist"], "program": K.program_for(scheds[0])[0], "spec_ret": scheds[0]["ret"]})
 
